@@ -31,6 +31,7 @@ def run(ctx, db, tier):
     every_access_style_fetches(ctx, db)
     delivered_matches_position(ctx, db)
     copy_continues(ctx, db)
+    failed_publish_consistent(ctx, db)
 
 
 def advance_before_read(ctx, db):
@@ -495,3 +496,34 @@ def _resolve_select(p, before):
             return p
         p = sp[1] if br.val else sp[2]
     return p
+
+
+def failed_publish_consistent(ctx, db):
+    """element p of the stream lives at index _pos - p - 1: the window _q and the position _pos must move together.  A single push_front has
+    the strong exception guarantee; an algorithm that inserts element by element (std::copy into a front_inserter, a range insert) can throw
+    after some elements are in: unless that is undone (or published) before the exception leaves, every later index is shifted"""
+    rid = ctx.rule('C16.failed-publish-consistent', 'PATHS (exception exit)', 'publisher::queue::push overloads: every insertion of several elements into the window (a std algorithm writing through an inserter '
+                   'on _q, or a range insert) sits in a try block whose handler restores the window (erase / resize / pop on _q) or publishes what was inserted (push_lk) before the exception '
+                   'leaves; single-element insertions have the strong guarantee', floor=1)
+    Q = PQ + '::_q'
+    n = 0; seen = set()
+    for f in db.fns('cocls::publisher::queue::push'):
+        if f['key'] in seen:
+            continue
+        seen.add(f['key'])
+        evl = list(f.events())
+        ins_ids = {e['id'] for e in evl if e.k == 'call' and norm(e.get('callee') or '') in ('std::front_inserter', 'std::back_inserter', 'std::inserter') and any(norm(a.get('field') or '') == Q for a in e.get('args', []))}
+        bulk = [e for e in evl if e.k == 'call' and (any(a.get('ev') in ins_ids for a in e.get('args', [])) or
+                                                    (norm(e.get('field') or '') == Q and norm(e.get('callee') or '').split('::')[-1] in ('insert', 'assign', 'insert_range', 'append_range', 'prepend_range') and len(e.get('args', [])) >= 3))]
+        single = [e for e in evl if e.k == 'call' and norm(e.get('field') or '') == Q and norm(e.get('callee') or '').split('::')[-1] in ('push_front', 'emplace_front', 'push_back', 'emplace_back')]
+        restore = [e for e in evl if e.get('in_catch') and e.k == 'call' and ((norm(e.get('field') or '') == Q and norm(e.get('callee') or '').split('::')[-1] in ('erase', 'resize', 'pop_front', 'pop_back', 'clear'))
+                                                                                or norm(e.get('callee') or '') == 'cocls::publisher::queue::push_lk')]
+        for e in bulk:
+            n += 1
+            ok = e.get('try') is not None and bool(restore)
+            ctx.ob(rid, f, e['loc'], ok, 'the element-by-element insertion is undone or published when it throws part-way', desc='range publish can throw after partial insertion without restoring the window')
+        for e in single:
+            n += 1
+            ctx.ob(rid, f, e['loc'], True, 'single-element insertion (strong exception guarantee of std::deque at either end)')
+    if n == 0:
+        raise Broken('publisher::queue::push inserts nothing into the window: anchor changed')
